@@ -112,7 +112,7 @@ class IndexedGrammar:
         was_modified = False
         # f_rules contains the consumption rules associated with
         # the current production symbol
-        f_rules = self.rules.consumption_rules.setdefault(
+        f_rules = self.rules.consumption_rules.get(
             rule.production, [])
         # l_rules contains the left symbol plus what is marked on
         # the right side
